@@ -210,3 +210,22 @@ def update_visitor_leaves(ix, rep, mon, rule='R-EXH'):
             rep.analysed(g)
             rep.ok(rule, g.module.rel, '%s.%s' % (g.owner.name, g.name), slot, 'leaf evaluated by the update visitor', g.node.lineno)
     return uv
+
+
+def constructed_operations(ix, mon):
+    """{node class name: operation ClassInfo} built by the online construction visitor of mon."""
+    out = {}
+    d = D.dispatch_of(ix, mon.cls)
+    for nc in D.node_classes(ix):
+        meth, _ = d.method_for(nc, ix)
+        if not meth:
+            continue
+        cat, info, f = D.classify(ix, mon.cls, meth)
+        if cat != 'compute':
+            continue
+        for st in _construct_sites(f):
+            if isinstance(st.value, ast.Call):
+                ent = ix.resolve_expr(f.module, st.value.func, f.owner.env)
+                if isinstance(ent, ClassInfo):
+                    out[nc.name] = ent
+    return out
